@@ -458,6 +458,15 @@ func (r *dRun) payload(prod, i int) []byte {
 	}
 	b := make([]byte, 0, pad+24)
 	b = append(b, fmt.Sprintf("p%d-%d ", prod, i)...)
+	if r.cfg.Pad == 3 {
+		// payloads whose total length is exactly the capacity of a pooled buffer (500 fresh; 512, 576 after growth) or
+		// one byte off, followed by short ones
+		want := []int{500, 100, 512, 499, 501, 576, 60}[(i+prod)%7]
+		pad = want - len(b) - 1
+		if pad < 0 {
+			pad = 0
+		}
+	}
 	for k := 0; k < pad; k++ {
 		b = append(b, byte('a'+(k+i+prod)%26))
 	}
@@ -553,6 +562,8 @@ func (r *dRun) awaitQuiescence(limit time.Duration) (state, dump string) {
 	var lastRI uint64
 	var pollsAtProgress int64
 	lastTrace := -1
+	spinLooks, spinTrace := 0, -1
+	var spinPolls int64 = -1
 	for {
 		if r.progressDone() {
 			return "", ""
@@ -581,6 +592,16 @@ func (r *dRun) awaitQuiescence(limit time.Duration) (state, dump string) {
 			}
 			if r.cfg.Poll > 0 && polls-pollsAtProgress >= 1000 {
 				return "polling", ""
+			}
+			// a consumer that is on the processor look after look, inside the poller, without ever reaching a hook point
+			// (no poll, no delivery) while claimed positions remain: it spins where it should sleep and poll again
+			if found && r.cfg.Poll > 0 && (st == "running" || st == "runnable") && strings.Contains(dump, "(*Poller).Next") && tl == spinTrace && polls == spinPolls {
+				spinLooks++
+				if spinLooks >= 400 {
+					return "spinning", dump
+				}
+			} else {
+				spinLooks, spinTrace, spinPolls = 0, tl, polls
 			}
 			if !found && !r.progressDone() && atomic.LoadInt64(&r.closeCalled) == 0 {
 				// there is no consumer goroutine any more, although Close has not been called and claimed positions
